@@ -112,8 +112,9 @@ CHECKS = {
          "every file's size and CRC-16, mtime (when recorded), mode (recorded bits or 0600), every safe link's target, every "
          "directory's recorded mode and mtime although its children were written after it; unsafe links and the directories "
          "receiving them are left open as in the statement; nothing else may exist. For half of the extractions the expected tree is "
-         "computed by TreeModel.tla from the archive's intended contents, the options, wildcard arguments (Glob.tla), files present "
-         "beforehand and the answers typed at the overwrite prompt (y/n/a/s, empty and unrecognised lines, upper case): a file is "
+         "computed by TreeModel.tla from the archive's intended contents, the options, wildcard arguments (Glob.tla), what is present "
+         "beforehand (files; symbolic links to a directory, to a file or to nothing where a file belongs; files and links where a "
+         "link entry belongs) and the answers typed at the overwrite prompt (y/n/a/s, empty and unrecognised lines, upper case): a file is "
          "replaced only under the policy in force, only matching members are touched, missing parents appear with 0755. The "
          "library's own extraction (lha_reader_extract with header paths) is run under each of its three directory policies and "
          "the resulting tree compared with TreeModel (PLAIN: time stamps of directories that receive children excepted). The "
@@ -144,7 +145,8 @@ CHECKS = {
          "a re-pointed safe link in the deferred phase) when the mask is removed. Binding: the real tool runs under strace as an "
          "unprivileged user on the known-finding archives, on archives generated by TLC from the same model (whose predicted "
          "escape/no-escape must match the tool), on random hostile archives (.., absolute, backslash/0xFF/NUL names, link/file/dir "
-         "name reuse, options f/i/q/w=, pre-existing files and links) and with read-only commands; every system call is replayed "
+         "name reuse, options f/i/q/w=, pre-existing files and links), on a family of link targets that mention '..' in every position "
+         "(after a directory or after a link to '.', followed by a file below the link) and with read-only commands; every system call is replayed "
          "on FsModel: its outcome must equal the kernel's, and Confined / NoEarlyDanger / O_EXCL-only / ReadOnly are evaluated "
          "after each call. Every raw path extended header of up to 3 (thorough: 4) tokens over {.., ., a, NUL, 0xFF, /, \\} is "
          "extracted as a directory entry with recorded permissions and time and as a file entry.",
@@ -157,7 +159,8 @@ CHECKS = {
     category="model_checking",
     text="The configuration space is enumerated completely: field in {name, path component, link target, method of the first member, "
          "method of a later member, user, group} x byte class (13 representatives of 0x01-0x1F incl. ESC/BEL/CR/LF/TAB, 0x7F, 0x80-0xFF; "
-         "thorough: all 255 values) x first/later member x mode in {l, lv, v, vv, t, x, xn, xq0, xq1, xq2, p}. Every byte the tool "
+         "thorough: all 255 values) x first/later member x mode in {l, lv, v, vv, t, x, xn, xq0, xq1, xq2, p, a second extraction over "
+         "the first one's result with each answer to the overwrite prompt (n, s, a, y, unrecognised), a dry run over it, option i}. Every byte the tool "
          "writes to stdout and stderr is logged and TLC evaluates the invariant (printable ASCII, LF, CR, TAB) on each; for the "
          "list modes stdout must in addition equal ListOutput.tla's rendering ('?' exactly where the hostile byte was). Random "
          "hostile archives (names of any length, hostile wildcard arguments) go through the list commands as well. "
@@ -179,7 +182,9 @@ CHECKS = {
          "(all levels, sizes 0..2^32-1 incl. packed > original and original = 0, all OS types, full-range permission words, "
          "uid/gid, stamps around now-15552000, 0, 2^31, 2^32-1, names up to 255 bytes, symlinks, directories) and corpus "
          "archives, for each of l/lv/v/vv with quiet levels, wildcard lists and several `now`/mtime values, stdout must equal "
-         "the rendering byte for byte.",
+         "the rendering byte for byte. Row selection is bound exhaustively: every wildcard pattern of up to 3 (thorough: 4) characters "
+         "over {*, ?, a, b}, samples of longer ones and of two-pattern lists, against members named by every string of up to 3 characters "
+         "over {a, b, ?, *}, through lq2 / l / vq2 (Cli!MainOutput).",
     design_ref="DESIGN.md section 5, C19",
     note="TZ=UTC; `now` via TEST_NOW_TIME. The ratio digits come from a float32 emulation in the harness (not TLA+). Header records "
          "are those the library returns.",
@@ -251,7 +256,8 @@ CHECKS = {
          "structurally generated archives with extreme length fields (level-3 header length up to 2^32-1 and around the 1 MiB cap, "
          "level-3 extended sizes, level-1 chains of 3000 extended headers, chains promising absent data, 4 GiB member sizes, "
          "decoders that never run dry with 4 GiB declared, archives of a dozen members that each need a large-state decoder - plain and behind "
-         "the MacBinary pass-through) and mutated archives, through all five stream kinds, under a "
+         "the MacBinary pass-through, -pm1- members that really are endless with declared lengths 0..20000, declared lengths 0 and 1 in "
+         "front of real streams of every method) and mutated archives, through all five stream kinds, under a "
          "deterministic step budget; every call's result is validated against Reader.tla and the trace spec evaluates on every "
          "call: callback calls <= 2*len+64*ops+256, bytes requested <= 3*len+out+(1MiB+8K)*ops+64K, peak heap <= 8 MiB+2*len.",
     design_ref="DESIGN.md section 5, C13",
@@ -271,7 +277,7 @@ CHECKS = {
          "through path/FILE/pipe/callback/callback-without-skip streams must all yield the members of the reference run and "
          "be accepted by Reader.tla; (3) the tool: Cli!Main (src/main.c: argument shapes, the name '-' = standard input, open failure, "
          "usage page) decides every whole invocation - list, test, print, dry-run and extract commands on archives named by path, "
-         "by '-' with the file itself on standard input and by '-' with a pipe, with and without stubs in front: standard output "
+         "by '-' with the file itself on standard input, by '-' with a pipe and with a pipe fed 7 bytes at a time, with and without stubs in front: standard output "
          "must equal Cli!MainOutput byte for byte for the members of the seekable-file reading.",
     design_ref="DESIGN.md section 5, C16",
     note="Caller callbacks are assumed to fill the buffer unless at end of input. Reader-level ground truth is relative (reference run "
@@ -288,7 +294,7 @@ CHECKS = {
          "extracted directories are re-presented exactly where the policy says (never under PLAIN); deferred symlinks come "
          "last, longest first; end of archive is sticky. The implementation is bound by trace validation: generated "
          "multi-member archives (all header levels, stored and real compressed members of 10 methods, directories, safe and "
-         "dangerous symlinks, bad CRC/length, unsupported methods) are driven with random disciplined call sequences over "
+         "dangerous symlinks, bad CRC/length, unsupported methods, directory entries that record no metadata at all) are driven with random disciplined call sequences over "
          "five stream kinds; each call's result, returned bytes and projected internal state (LHASA_VERIF accessors) must "
          "equal the model's. Two readers over two archives run interleaved call by call, nested (reader B advanced from inside "
          "reader A's progress callback, i.e. in the middle of A's decoding loop; what A's extraction wrote must be A's member), on "
@@ -304,7 +310,8 @@ CHECKS = {
     text="For each generated history (archive incl. nested directories and dangerous symlinks, policy, disciplined call "
          "sequence cut at a prefix so that the archive is abandoned at arbitrary points, stream kind) and for header-shape "
          "archives (every sequence of up to two - thorough: three - extended header types, repeats included, in level 1-3 "
-         "headers, also with a path already stored when the path header arrives) the fault-free run's "
+         "headers, also with a path already stored when the path header arrives; special contents of the string-valued headers: '.', "
+         "'..', empty, separators, 300 bytes) the fault-free run's "
          "allocations are counted by link-time interposition, then the run is repeated once per k with the k-th allocation "
          "failing (all k). Every execution's trace (calls, results, state projections, Alloc/Dealloc/Fopen/Fclose events) is "
          "validated against Reader.tla: the failing call must return a failure value/end of archive, later calls must behave as "
